@@ -155,6 +155,21 @@ pub fn plan(prop: &str, tier: Tier) -> Option<Plan> {
                 job(eng::c16::C16Engine { fixed_grid: false }, if q { 320 } else { 4000 }, "nostd"),
             ],
         ),
+        "C14" => (
+            "exploration",
+            "(a) exhaustive: every ordered pair of values from headers x slices of length <=3 over a small alphabet (u8 {0,1,2}: 120 values; f32 {0.0,-0.0,1.0,NaN}: 340 values; an Eq-only type: 120 values), for 13 handle / payload kinds (Arc<T>, Arc<(H,Vec<T>)>, Arc<[T]>, Arc<HeaderSlice<H,[T]>>, Arc<HeaderSlice<HeaderWithLength<H>,[T]>>, Arc<HeaderSliceWithLengthProtected>, ThinArc, OffsetArc, ArcBorrow, ArcUnion (same and different variants), bare HeaderSlice / HeaderSlice<HeaderWithLength> / HeaderWithLength values), placed in distinct allocations and (when identical) in the same allocation, recorded lengths equal and unequal to the slice length; (b) proptest-random larger values (full-range scalars incl. arbitrary NaN bit patterns, slices up to 80). Oracle: ==, !=, <, <=, >, >=, partial_cmp, cmp on handles equal the same on the plain values ((header, slice) tuple for thin / header-slice kinds); != is the negation of ==; == iff partial_cmp == Some(Equal); relational operators and cmp agree with partial_cmp; a recording Hasher sees the identical write sequence for handle and value and equal handles hash equally; {:?} {:#?} {} {:>8} {:<6} {:08.3} {:+} format identically; HashMap / BTreeMap keyed by Arc<T> probed with &T. Licence: same allocation + value not equal to itself => == may be true. Non-trivial: equal values in distinct allocations, or unequal recorded lengths, or a value not equal to itself, or a kind other than Arc<T>/ThinArc.".into(),
+            vec!["the exhaustive part is complete for the stated small domain; the random part is sampled".into()],
+            {
+                let mut v = vec![];
+                for e in eng::cmp::engines(true) {
+                    v.push(jobb(e, 0, "all"));
+                }
+                for e in eng::cmp::engines(false) {
+                    v.push(jobb(e, if q { 20_000 } else { 700_000 }, "all"));
+                }
+                v
+            },
+        ),
         _ => return None,
     };
     Some(Plan { property: prop.to_string(), level, rule, assumptions, jobs })
